@@ -112,6 +112,7 @@ class SimSpec:
             "resubmissions_with_changed_group_parameters": sum(1 for t in tasks for rd in (t["args"]["scen"].get("resubmit") or {}).get("rounds", []) if rd.get("groups")),
             "scenarios_with_parameters_given_as_submit_jobs_options": sum(1 for t in tasks if t["args"]["scen"].get("cli_params")),
             "scenarios_without_distributed_submitter": sum(1 for t in tasks if any(not g.get("dsub", True) for g in t["args"]["scen"]["groups"])),
+            "scenarios_with_glob_metacharacters_in_the_output_directory": sum(1 for t in tasks if any(ch in (t["args"]["scen"].get("outname") or "") for ch in "[]*?{}")),
             "scenarios_with_a_held_slow_blocker": sum(1 for t in tasks if t["args"]["scen"].get("hold_job")),
             "lock_markers_of_live_holders_detached_by_the_lock_library": total(ok, "live_lock_breaks"),
         }
@@ -155,6 +156,14 @@ class C01(SimSpec):
         if i % 10 == 3:
             for g in scen["groups"]:
                 g["dsub"] = False  # --no-distributed-submitter: the nodes never act as submitter, every round is the user's
+        if i % 10 == 9:
+            scen["outname"] = rng.choice(["out[1]", "sweep[2]/output", "o[ab]c"])  # an output directory with glob metacharacters
+        if i % 10 == 5:
+            # the scheduler rejects some batches (submit limit, bad account ...): an answer of the scheduler, not a fault of JADE;
+            # identifiers and placements must stay unique all the same
+            scen["faults"] = {"sbatch_fail_re": rng.choice([r"_batch_2\.sh$", r"_batch_(1|3)\.sh$", r"_batch_(2|5)\.sh$", r"_batch_[2-4]\.sh$"])}
+            for g in scen["groups"]:
+                g["batch"] = rng.randint(1, 2)
         return scen
 
     def tasks(self, tier, seed):
@@ -226,6 +235,15 @@ class C02(SimSpec):
             scen["groups"][0]["time_based"] = False
             scen["user"] = {}
         scen["policy"]["finish_w"] = rng.choice([0.1, 0.3, 1.0])  # blockers finish late
+        if i % 12 == 4:
+            # a blocker whose command cannot be started on the node (tool not installed there): it never gets an outcome, so
+            # nothing that waits for it may start
+            roots = [j for j in scen["jobs"] if any(j["name"] in k["blocked_by"] for k in scen["jobs"])]
+            if roots:
+                rng.choice(roots)["command"] = "/no/such/dir/vsim_missing_tool --run"
+                scen["faults"] = {"unstartable_command": True}
+                for g in scen["groups"]:
+                    g["try_add"] = True
         if i % 6 == 1:
             # one failure cancels several flagged jobs that also wait for a job that is still running, all in one node queue
             sc2 = scenario.gen_scenario(rng, max_jobs=9, min_jobs=5, shapes=["fanfail"], fail_p=0.0)
@@ -331,6 +349,8 @@ class C03(SimSpec):
                 if v == 0 and i % 3 == 1:
                     for g in scen["groups"]:
                         g["dsub"] = False  # no distributed submitter: only the user's rounds move the submission on
+                if v == 0 and i % 3 == 2:
+                    scen["outname"] = vr.choice(["out[1]", "sweep[2]/output", "o[ab]c", "out{x}"])  # characters that mean something to glob
                 if v == 2:
                     # collection race variant: rounds collect the result files of batches that are still running jobs, with
                     # delays between a collector's read and its delete of a node file
@@ -689,6 +709,17 @@ class C14(SimSpec):
                 g["batch"] = rng.randint(1, 3)
         scen["user"] = {"try_submit": rng.choice([1, 2, 3]), "show_status": rng.choice([0, 1, 2]), "p": 0.02}
         scen["policy"]["finish_w"] = rng.choice([0.05, 0.2, 1.0])
+        if i % 8 == 5:
+            # a scheduler outage (all status queries of 1-2 rounds fail) before the user cancels: the batches that were active
+            # during the outage are still JADE's to cancel
+            scen["faults"] = {"squeue_fail": 1.0, "squeue_fail_budget": rng.choice([7, 7, 14]), "max_recoveries": 12, "outage_freeze": True}
+            scen["cancel"] = rng.choice([0.002, 0.005])
+            scen["cancel_after_outage"] = rng.random() < 0.8  # the user cancels as soon as the scheduler answers again
+            scen["user"] = {"try_submit": rng.choice([2, 3]), "show_status": 0, "p": 0.05, "late_try": 1}
+            scen["policy"]["finish_w"] = rng.choice([0.01, 0.03])
+            for g in scen["groups"]:
+                g["time_based"] = False
+                g["batch"] = rng.randint(1, 3)
         return scen
 
     def nontrivial(self, t, r):
